@@ -213,6 +213,51 @@ example : parsModel ["x = ( \\".toList, "  ( # comment".toList, "a".toList, ") #
 example : parsModel ["f((a))".toList] ⟨⟨0, 3, 0, 4⟩, (0, 6), (0, 0), .t, true, false, true⟩ = (⟨0, 2, 0, 5⟩, 1) := by decide
 example : parsModel ["f(i for i in j)".toList] ⟨⟨0, 1, 0, 15⟩, (0, 15), (0, 0), .f, true, true, true⟩ = (⟨0, 2, 0, 14⟩, -1) := by decide
 
+/-! ## `bloc` = `loc` ∪ trailing line comment of the last line -/
+
+/-- `bloc` of a block = `loc` ∪ the trailing line comment of its last line: when the text after the end of `loc` on
+the last line is blanks followed by a comment, `bloc` ends at the end of the line (= the end of the comment token, a
+comment runs to the end of its line). -/
+theorem bloc_covers_comment (pre sp c : Line) :
+    blocEndCol (pre ++ sp ++ '#' :: c) pre.length = (pre ++ sp ++ '#' :: c).length := by
+  unfold blocEndCol
+  have h : ((pre ++ sp ++ '#' :: c).drop pre.length) = sp ++ '#' :: c := by
+    rw [List.append_assoc, List.drop_left]
+  rw [h]
+  simp
+
+/-- ... and when no `#` follows the end of `loc` on the last line, `bloc` ends where `loc` ends. -/
+theorem bloc_eq_loc_of_no_comment (l : Line) (endCol : Nat) (h : ∀ ch ∈ l.drop endCol, ch ≠ '#') :
+    blocEndCol l endCol = endCol := by
+  unfold blocEndCol
+  have : (l.drop endCol).contains '#' = false := by
+    apply Bool.eq_false_iff.mpr
+    intro hc
+    have := List.contains_iff_mem.mp hc
+    exact h '#' this rfl
+  rw [this]; rfl
+
+/-- After the comment is replaced (`pre ++ old` becomes `pre ++ new`, both holding a comment) the bounding location
+is that of the NEW line: an answer remembered from before the edit is wrong exactly when the lengths differ. -/
+theorem bloc_after_comment_edit (pre sp c sp' c' : Line) :
+    blocEndCol (pre ++ sp' ++ '#' :: c') pre.length = (pre ++ sp' ++ '#' :: c').length ∧
+    ((sp ++ '#' :: c).length ≠ (sp' ++ '#' :: c').length →
+      blocEndCol (pre ++ sp ++ '#' :: c) pre.length ≠ blocEndCol (pre ++ sp' ++ '#' :: c') pre.length) := by
+  refine ⟨bloc_covers_comment pre sp' c', fun hne => ?_⟩
+  rw [bloc_covers_comment, bloc_covers_comment]
+  simp only [List.length_append, List.length_cons] at *
+  omega
+
+/-- deleting the comment (only blanks remain after the node) brings `bloc` back to `loc` -/
+theorem bloc_after_comment_delete (pre sp : Line) (hsp : ∀ ch ∈ sp, ch ≠ '#') :
+    blocEndCol (pre ++ sp) pre.length = pre.length := by
+  apply bloc_eq_loc_of_no_comment
+  rw [List.drop_left]; exact hsp
+
+example : blocEndCol "    call(i)  # old".toList 11 = 18 := by decide
+example : blocEndCol "    call(i)  # a much longer comment".toList 11 = 36 := by decide
+example : blocEndCol "    call(i)".toList 11 = 11 := by decide
+example : blocEndCol "    x = '#'".toList 11 = 11 := by decide
 /-! ## by-location search = brute force over all nodes (repaired `find_contains_loc` / `find_loc`) -/
 
 /-- Non-empty query rectangle. -/
